@@ -43,8 +43,10 @@ func (e *shift) SubMergers(subs []Expr) []SubMerge {
 	matched := false
 	for i, sub := range subs {
 		if e.String() == sub.String() {
+			// only the first match: a second field with the same expression holds the same data
 			sms[i] = e.subMerge
 			matched = true
+			break
 		}
 	}
 	if matched {
